@@ -261,7 +261,7 @@ def _run_task(args):
         name, fn, kw = mod.tasks(tier)[idx]
         ctx = Ctx(prop, name, tier, seed, excluded, shared)
         from . import ambient
-        on = ambient.choose(seed, prop, name, mod)
+        on = ambient.choose(seed, prop, name, mod, idx)
         ctx.ambient = ambient.enter(on, seed, prop, name, REPO)
         ctx.extra["ambient"] = on
         try:
